@@ -82,6 +82,27 @@ fn is_eager_code_fetch(case: &Case, key: &Key, clean: &RefRun, faulty_in_order: 
     check_prefix(case, clean, out, k, with_reverts).is_empty()
 }
 
+/// Known finding F6: the sequential path pre-reads the sender of a transaction whose nonce is
+/// u64::MAX (`reject_nonce_overflow`), while revm rejects such a transaction in environment
+/// validation without touching the database.
+fn is_nonce_max_precheck(case: &Case, key: &Key, clean: &RefRun, faulty_in_order: &RefRun, out: &RunOut, with_reverts: bool) -> bool {
+    let Err((k, sig)) = &out.result else { return false };
+    let k = *k;
+    let Some(tx) = case.txs.get(k) else { return false };
+    if tx.nonce != u64::MAX || *key != Key::Basic(tx.caller) || case.disable_nonce_check {
+        return false;
+    }
+    if *sig != format!("Database:injected fault at {}", key.short()) {
+        return false;
+    }
+    if let Some((k2, _)) = &faulty_in_order.error &&
+        *k2 <= k
+    {
+        return false;
+    }
+    check_prefix(case, clean, out, k, with_reverts).is_empty()
+}
+
 /// Judge one faulty run. `persistent`: the plan's faults fire on every access.
 #[allow(clippy::too_many_arguments)]
 fn judge(
@@ -102,6 +123,18 @@ fn judge(
             "C04",
             format!(
                 "database fault on code {} reported at tx {k}: in order, tx {k} reads an account carrying that code hash but never loads its code (grevm fetches code eagerly with every account read); outcomes and state are the exact {k}-transaction prefix",
+                key.short()
+            ),
+        ));
+        return v;
+    }
+    if is_nonce_max_precheck(case, key, clean, with_preload, out, rc.with_reverts) {
+        let Err((k, _)) = &out.result else { unreachable!() };
+        v.push(vio(
+            "FAULT-NONCE-MAX-PRECHECK",
+            "C04",
+            format!(
+                "database fault on sender {} reported at tx {k} whose nonce is u64::MAX: revm rejects that transaction without reading the sender, grevm's sequential path reads it first; outcomes and state are the exact {k}-transaction prefix",
                 key.short()
             ),
         ));
@@ -184,6 +217,20 @@ pub fn fault_families() -> Vec<(u32, GenParams)> {
             },
         ),
         (
+            5,
+            GenParams {
+                family: "fault-stale-probe",
+                txs: (3, 8),
+                n_eoa: 4,
+                n_con: 1,
+                mix: Mix { sload: 10, sstore: 8, balance: 4, call: 2, slots: 3, len: (1, 5), terminate: 0, ..Mix::default() },
+                kind_w: [14, 0, 0, 0],
+                stale_probe: true,
+                nonce_check_off_pct: 60,
+                ..GenParams::default()
+            },
+        ),
+        (
             3,
             GenParams {
                 family: "fault-mixed",
@@ -208,7 +255,7 @@ fn fault_profiles() -> ProfileWeights {
         focus: 4,
         director: 8,
         focus_classes: &[Class::ExecStart, Class::Cache, Class::Abort, Class::Commit, Class::Mv],
-        directors: obs::D_COMMIT_HEAD | obs::D_CACHE | obs::D_EXEC_PUBLISH | obs::D_COORD,
+        directors: obs::D_COMMIT_HEAD | obs::D_CACHE | obs::D_EXEC_PUBLISH | obs::D_COORD | obs::D_FINISH_AT_HEAD,
     }
 }
 
@@ -283,7 +330,11 @@ fn c04_iterate(iter_seed: u64, rep: &mut ShardReport, deadline: Instant) {
                 let mut plan = FaultPlan::default();
                 plan.faults.insert(key.clone(), mode.clone());
                 // slow some keys so attempts start speculatively and finish late
-                if ir.chance(1, 2) {
+                if !touched[key] {
+                    // a key only stale attempts read: keep the reader busy long enough for its
+                    // predecessors to commit, so the attempt ends as the commit head
+                    plan.latency_us.insert(key.clone(), *ir.pick(&[1000u64, 3000, 6000]));
+                } else if ir.chance(1, 2) {
                     plan.latency_us.insert(key.clone(), *ir.pick(&[200u64, 1000, 3000]));
                 }
                 if ir.chance(1, 3) {
@@ -400,7 +451,7 @@ fn c05_iterate(iter_seed: u64, rep: &mut ShardReport) {
         focus: 6,
         director: 8,
         focus_classes: &[Class::Wait, Class::Dep, Class::Abort, Class::Finality, Class::Commit, Class::Cursor],
-        directors: obs::D_COORD | obs::D_WAIT | obs::D_COMMIT_HEAD | obs::D_CLAIM_LOCK,
+        directors: obs::D_COORD | obs::D_WAIT | obs::D_COMMIT_HEAD | obs::D_CLAIM_LOCK | obs::D_FINISH_AT_HEAD,
     };
     {
         let mut ir = Rng::new(iter_seed);
